@@ -22,6 +22,26 @@ CLAIMED = {
             "DESIGN.md section 4 C16"),
 }
 
+TECH = "contract-based deductive verification: VCs generated from the real AST (pyvc), discharged by z3/cvc5"
+CLAIMED.update({
+    "C04": ("proof", TECH,
+            "CalculateRevenue, CalculateCarbonRevenue (8 end-uses enumerated), calculate_npv and "
+            "CalculateFinancialPerformance are proved against postconditions transcribed from the statement "
+            "(revenue = energy x price, construction years zero, cumulative = running sum, NPV at the stated rate "
+            "under both conventions, IRR of the reported series with 'non-zero IRR zeroes the NPV', VIR, MOIC) for "
+            "all lifetimes, construction years and series contents; loop invariants are checked, not assumed.",
+            TRUSTED + "numpy-financial npv/irr are library axioms (A3).",
+            "DESIGN.md section 4 C04"),
+    "C15": ("proof", TECH,
+            "Non-negativity of pumping power in all four pumping-power functions (both hydraulic models, pumped and "
+            "self-flowing enumerated), the reservoir-pressure predictor (start, floored linear decline, monotone, "
+            ">= hydrostatic, constant at 100 %) and the injection-pressure predictor are proved for all series "
+            "lengths and inputs satisfying the stated preconditions. Turbulent-friction monotonicity in diameter is "
+            "not decided (listed in the evidence).",
+            TRUSTED + "vapor_pressure_water_kPa is uninterpreted with result > 0; pint conversions are trusted.",
+            "DESIGN.md section 4 C15"),
+})
+
 NOT_APPLICABLE = {
     "C13": "independence/non-replication of Monte Carlo draws across forked pool workers is a schedule/process-history "
            "property of numpy's global RNG under fork; no per-call contract can state it (DESIGN.md section 6)",
